@@ -136,6 +136,7 @@ type Summary struct {
 	Hashes       []string         `json:"hashes"`
 	HashesCapped bool             `json:"hashes_capped"`
 	Violations   []ViolationRec   `json:"violations"`
+	KnownHits    map[string]int64 `json:"known_hits"`
 	Inconclusive int64            `json:"inconclusive"`
 	Complete     bool             `json:"complete"`
 }
@@ -145,7 +146,7 @@ const maxSamples = 4
 
 var (
 	mu     sync.Mutex
-	sum    = Summary{Classes: map[string]int64{}, Notes: map[string]int64{}}
+	sum    = Summary{Classes: map[string]int64{}, Notes: map[string]int64{}, KnownHits: map[string]int64{}}
 	hashes = map[uint64]struct{}{}
 	vios   = map[string]ViolationRec{}
 )
@@ -198,6 +199,47 @@ func Inconclusive() {
 	mu.Lock()
 	defer mu.Unlock()
 	sum.Inconclusive++
+}
+
+// known findings (committed file, never written at run time): property -> signature set
+var knownSigs = func() map[string]map[string]bool {
+	out := map[string]map[string]bool{}
+	dir := os.Getenv("VERIF_DIR")
+	if dir == "" {
+		dir = "/verif"
+	}
+	b, err := os.ReadFile(filepath.Join(dir, "known_findings.json"))
+	if err != nil {
+		return out
+	}
+	var f struct {
+		Known []struct {
+			Property  string `json:"property"`
+			Signature string `json:"signature"`
+		} `json:"known"`
+	}
+	if json.Unmarshal(b, &f) != nil {
+		return out
+	}
+	for _, k := range f.Known {
+		if out[k.Property] == nil {
+			out[k.Property] = map[string]bool{}
+		}
+		out[k.Property][k.Signature] = true
+	}
+	return out
+}()
+
+// Known reports whether (property, signature) is a listed known finding. A search that meets one counts it
+// (so the driver can print the KNOWN-FINDING line) and goes on instead of stopping at it.
+func Known(property, signature string) bool {
+	if !knownSigs[property][signature] {
+		return false
+	}
+	mu.Lock()
+	sum.KnownHits[signature]++
+	mu.Unlock()
+	return true
 }
 
 // WantSample tells whether another written-out sample is still wanted.
